@@ -5,10 +5,12 @@ pub mod alea {
     use crate::fax::*;
     verus! {
     // `pub fn i64_in_range(min, max) { assert!(max > min, ..); min + i64_less_than(max + 1 - min) }`
+    // provenance: `r` is one fresh draw of the (trusted, uniform) generator on [min, max]; produced only here
+    pub uninterp spec fn alea_uniform(min: i64, max: i64, r: i64) -> bool;
     #[verifier::external_body]
     pub fn i64_in_range(min: i64, max: i64) -> (r: i64)
         requires (max > min) || may_reject()
-        ensures max > min, min <= r <= max
+        ensures max > min, min <= r <= max, alea_uniform(min, max, r)
     { unimplemented!() }
     pub uninterp spec fn unit_interval(x: f64) -> bool;      // 0 <= x < 1
     #[verifier::external_body]
